@@ -536,7 +536,11 @@ def finishCase (c : CaseSt) : IO Unit := do
   -- a failing / cancelled item that is followed by a delivered item of the same sender
   let after := c.sends.any fun s => !okS c s && !isLocal c s.sender &&
     (c.sends.any fun s2 => s2.sender == s.sender && s2.tag > s.tag && (recvTags c).contains s2.tag)
-  IO.println s!"END {c.name} kind={c.kind} event={c.event} c04={if f04.isEmpty then "ok" else "fail"} c11={if c.event == "none" then "na" else if f11.isEmpty then "ok" else "fail"} replay={if !cv.diffs.isEmpty then "diff" else if !replayed && cv.replayed == 0 then "skip" else if diffs.isEmpty then "ok" else "diff"} variant={variant} sends={c.sends.length} values={nVal} failed={nFail} streamed={nStream} cancelled={nCancel} halves={nHalves} recverrs={nErr} failthendeliver={if after then 1 else 0} senders={(senderIds c).length} closelinks={cv.links} closereplayed={cv.replayed} closediff={cv.diffs.length} droppedhandles={cv.dropped}"
+  -- observation F-TC-1: a send refused with `SendError::Closed` (reason Closed) although the receiver was dropped / the
+  -- connection failed and never closed (waiting sends, local clones); counted, not a failure
+  let nGone := if queued c && (c.event == "droprx" || c.event == "connfail") then
+      (c.sends.filter fun s => s.res == "closed" && getKV s.kv "reason" == "closed").length else 0
+  IO.println s!"END {c.name} kind={c.kind} event={c.event} c04={if f04.isEmpty then "ok" else "fail"} c11={if c.event == "none" then "na" else if f11.isEmpty then "ok" else "fail"} replay={if !cv.diffs.isEmpty then "diff" else if !replayed && cv.replayed == 0 then "skip" else if diffs.isEmpty then "ok" else "diff"} variant={variant} sends={c.sends.length} values={nVal} failed={nFail} streamed={nStream} cancelled={nCancel} halves={nHalves} recverrs={nErr} failthendeliver={if after then 1 else 0} senders={(senderIds c).length} closelinks={cv.links} closereplayed={cv.replayed} closediff={cv.diffs.length} droppedhandles={cv.dropped} closedaftergone={nGone}"
 
 def parseOptNat (s : String) : Option Nat := if s == "-" then none else s.toNat?
 
